@@ -7,10 +7,7 @@ package main
 
 import (
 	"fmt"
-	"go/ast"
-	"go/token"
 	"sort"
-	"strconv"
 	"strings"
 )
 
@@ -25,66 +22,32 @@ func c06CharList(s string) string {
 	return "[" + strings.Join(parts, ", ") + "]"
 }
 
-// c06Bytes evaluates `[]byte("…")`.
-func c06Bytes(e ast.Expr) (string, error) {
-	call, ok := e.(*ast.CallExpr)
-	if !ok || len(call.Args) != 1 {
-		return "", fmt.Errorf("value is not a []byte(\"…\") conversion")
-	}
-	at, ok := call.Fun.(*ast.ArrayType)
-	if !ok || at.Len != nil {
-		return "", fmt.Errorf("value is not a []byte conversion")
-	}
-	if id, ok := at.Elt.(*ast.Ident); !ok || id.Name != "byte" {
-		return "", fmt.Errorf("value is not a []byte conversion")
-	}
-	lit, ok := call.Args[0].(*ast.BasicLit)
-	if !ok || lit.Kind != token.STRING {
-		return "", fmt.Errorf("value is not a string literal")
-	}
-	return strconv.Unquote(lit.Value)
-}
-
 func init() {
 	gen("XmlTables", func(r *Repo) (string, error) {
 		type row struct{ k, v string }
-		read := func(name string, keyKind token.Token) ([]row, error) {
-			e, err := r.FindVar("xml", name)
+		e, err := r.TEnv()
+		if err != nil {
+			return "", err
+		}
+		// byteKey: the map is keyed by bytes (any constant byte expression: 'x', 0x3c, 60, a named constant) rather than strings
+		read := func(name string, byteKey bool) ([]row, error) {
+			kvs, p, _, err := e.MapVar("xml", name)
 			if err != nil {
 				return nil, err
 			}
-			cl, ok := e.(*ast.CompositeLit)
-			if !ok {
-				return nil, fmt.Errorf("xml.%s is not a composite literal", name)
-			}
-			if _, ok := cl.Type.(*ast.MapType); !ok {
-				return nil, fmt.Errorf("xml.%s is not a map literal", name)
-			}
 			var rows []row
-			for _, el := range cl.Elts {
-				kv, ok := el.(*ast.KeyValueExpr)
-				if !ok {
-					return nil, fmt.Errorf("xml.%s: element is not key: value", name)
-				}
-				kl, ok := kv.Key.(*ast.BasicLit)
-				if !ok || kl.Kind != keyKind {
-					return nil, fmt.Errorf("xml.%s: unexpected key form", name)
-				}
+			for _, kv := range kvs {
 				var k string
-				if keyKind == token.STRING {
-					k, err = strconv.Unquote(kl.Value)
-				} else {
-					var c rune
-					c, _, _, err = strconv.UnquoteChar(kl.Value[1:len(kl.Value)-1], '\'')
-					if c > 255 {
-						err = fmt.Errorf("key %s is not a byte", kl.Value)
+				if byteKey {
+					c, err := e.Int(p, kv.Key)
+					if err != nil || c < 0 || c > 255 {
+						return nil, fmt.Errorf("xml.%s: key is not a constant byte (%v)", name, err)
 					}
 					k = string([]byte{byte(c)})
-				}
-				if err != nil {
+				} else if k, err = e.Bytes(p, kv.Key); err != nil {
 					return nil, fmt.Errorf("xml.%s: %v", name, err)
 				}
-				v, err := c06Bytes(kv.Value)
+				v, err := e.Bytes(p, kv.Val)
 				if err != nil {
 					return nil, fmt.Errorf("xml.%s[%q]: %v", name, k, err)
 				}
@@ -98,15 +61,15 @@ func init() {
 			}
 			return rows, nil
 		}
-		ents, err := read("EntitiesMap", token.STRING)
+		ents, err := read("EntitiesMap", false)
 		if err != nil {
 			return "", err
 		}
-		rev, err := read("TextRevEntitiesMap", token.CHAR)
+		rev, err := read("TextRevEntitiesMap", true)
 		if err != nil {
 			return "", err
 		}
-		arev, err := read("AttrRevEntitiesMap", token.CHAR)
+		arev, err := read("AttrRevEntitiesMap", true)
 		if err != nil {
 			return "", err
 		}
